@@ -23,7 +23,7 @@ klass("Comment", module="fparser.common.readfortran", fields=dict(comment="str",
 klass("SymbolTables", module="fparser.two.symbol_table", fields=dict(
     _symbol_tables="dict[str,ref]", _current_scope="ref:SymbolTable?", _enable_checks="bool"))
 klass("SymbolTable", module="fparser.two.symbol_table", fields=dict(
-    _name="str", _parent="ref:SymbolTable?", _children="list[ref]", _node="any", _checking_enabled="bool",
+    _name="str", _parent="ref:SymbolTable?", _children="list[ref:SymbolTable]", _node="any", _checking_enabled="bool",
     _data_symbols="dict[str,any]", _modules="dict[str,ref]"))
 klass("SymbolTableError", bases=("Exception",), exception=True)
 
